@@ -14,6 +14,7 @@ def evaluator(name):
 
 class Check:
     def __init__(self, prop, tier, seed, level='exploration'):
+        core.RUNNING_CHECK = prop
         self.prop, self.tier, self.seed = prop, tier, seed
         self.ev = core.Evidence(prop, tier, seed, level)
         self.known = core.load_known()
@@ -58,6 +59,12 @@ class Check:
             gated += 1
             r1 = self._reproduce(v, evalname, cases)
             r2 = self._reproduce(v, evalname, cases) if r1 else None
+            if not (r1 and r2) and v.cls == 'HANG':
+                # the wall-clock watchdog is the one classification that depends on real time (machine load): a watchdog expiry that does
+                # not repeat is not a property violation and not a nondeterminism of the simulation; it is recorded, not reported
+                self.ev.notes.append('watchdog expiry not reproduced (wall-clock, machine load): %s %s' % (v.detail[:80], core.case_hash(cases[0])))
+                self.ev.probe('watchdog_expiry_not_reproduced')
+                continue
             if not (r1 and r2):
                 self.ev.internal_errors.append({'kind': 'not_reproducible', 'signature': v.signature(), 'detail': v.detail[:300], 'case': core._brief(cases[0])})
                 self._save_internal(v, cases)
